@@ -77,7 +77,7 @@ def predicate(prop, op, il, mres, tag):
     if f[1] == "sign" and il.startswith("ok "):
         parts = il.split(" ")
         if prop in ("C08", "C01") and parts[2] != "same-digest":
-            return ("Relic.Props.C08.pe_digest_ignores_signature_partial", "same-digest",
+            return ("Relic.Props.C08.pe_digest_ignores_signature", "same-digest",
                     "digest of the signed file differs from the digest that was signed: " + parts[2])
         if prop in ("C03", "C01") and mres.startswith("ok "):
             kv = _kv(tag)
